@@ -7,7 +7,7 @@
      Send{from, to, t, id, set}     a propagation message is written to the connection   (t: full ann get blk nil tx gettxs txs)
      Recv{at, from, t, id, set}     ... is read from the connection by rpc.Serve (before its handler runs)
      Import{n, b, ok, trunk}        the node handled a posted block (processBlock); trunk => it calls BroadcastBlock
-     TxSubmit{n, t, ok}             a tx handed to the node's pool (AddLocal)
+     TxSubmit{n, t} TxVerdict{ok}   a tx is about to be handed to the node's pool (AddLocal) / what the pool answered
      Connect{n, p}                  a new connection;   Disconnect{n, p}: node n dropped peer p
      Untouched{same}                store digest and pool of every node as at the start (after the hostile phase)
      Marks{n, p, blocks, txs}       the real per-peer marks, network at rest (hook comm.VerifPeerMarks)
@@ -57,11 +57,15 @@ TProduce == IsEvent("Produce") /\ ProduceAs(ev.n, ev.b) /\ Consume /\ UNCHANGED 
 
 TImport == IsEvent("Import") /\ NodeImport(ev.n, ev.b, ev.ok, ev.trunk) /\ Consume /\ UNCHANGED <<txcli, txpend, inh>>
 
+\* logged before pool.AddLocal is called (the relays may be on the wire before it returns); TxVerdict: what it returned
 TTxSubmit ==
   /\ IsEvent("TxSubmit")
-  /\ ev.ok = ValidT(ev.t)                               \* the pool takes valid txs and nothing else
-  /\ IF ev.ok THEN TxSubmit(ev.n, ev.t) ELSE UNCHANGED vars
+  /\ IF ValidT(ev.t) THEN TxSubmit(ev.n, ev.t) ELSE UNCHANGED vars
   /\ Consume /\ UNCHANGED <<txcli, txpend, inh>>
+TTxVerdict ==
+  /\ IsEvent("TxVerdict")
+  /\ ev.ok = ValidT(ev.t)                               \* the pool takes valid txs and nothing else
+  /\ Consume /\ UNCHANGED <<vars, txcli, txpend, inh>>
 
 TConnect ==
   /\ IsEvent("Connect")
@@ -186,7 +190,7 @@ TEnd ==
 
 TInit == Init /\ l = 1 /\ txcli = [pr \in Pairs |-> "idle"] /\ txpend = [pr \in Pairs |-> 0]
          /\ inh = [pr \in Pairs |-> NoMsg] /\ HWMInit
-TNext == TReset \/ TProduce \/ TImport \/ TTxSubmit \/ TConnect \/ TDisconnect \/ TSend \/ TRecv \/ THandle \/ TDecide \/ TStartTxSync \/ TFetchSkip
+TNext == TReset \/ TProduce \/ TImport \/ TTxSubmit \/ TTxVerdict \/ TConnect \/ TDisconnect \/ TSend \/ TRecv \/ THandle \/ TDecide \/ TStartTxSync \/ TFetchSkip
          \/ TUntouched \/ TMarks \/ TState \/ TEnd
 TSpec == TInit /\ [][TNext]_tvars
 
